@@ -77,6 +77,18 @@ def classify(component, what, case):
     if law == "hex_nul_refused" and b"\x00" in val and case.get("got", ["err"])[0] == "ok" and ty.startswith("t:ietf-yang-types:") \
             and unhex(case["got"][1]) == val.split(b"\x00")[0].lower():
         return "F423"
+    # F424: union with two leafref members: the sort callback finds neither value (realtype = the target's type) and returns 0
+    if ty.startswith("U(") and ty.count("lref(") >= 2 and law in ("sort_consistent_with_eq", "leaflist_order", "sort_total_order"):
+        from checks import valunion
+        ms = valunion.flatten(ty)
+
+        def two_lrefs(x, y):
+            mx, my = valunion.MEMBER_OF.get((ty, x)), valunion.MEMBER_OF.get((ty, y))
+            return mx is not None and my is not None and mx != my and ms[mx].startswith("lref(") and ms[my].startswith("lref(")
+        if law != "sort_total_order" and case.get("reply", [None] * 4)[1:3] == ["0", "0"] and two_lrefs(case.get("a_hex"), case.get("b_hex")):
+            return "F424"
+        if law == "sort_total_order" and case.get("c_hex") and (two_lrefs(case["a_hex"], case["b_hex"]) or two_lrefs(case["b_hex"], case["c_hex"])):
+            return "F424"
     # F410: identityref accepts an identity derived from some but not all of the bases
     if law == "identityref_accept_iff" and case.get("rfc") is None and case.get("got", ["err"])[0] == "ok" and len(case.get("bases", [])) > 1 \
             and any(case.get("derived_from_base", [])) and not all(case.get("derived_from_base", [])):
@@ -93,7 +105,7 @@ def classify(component, what, case):
         a, b = (case.get("a_hex"), case.get("b_hex")) if law == "eq_iff_canon_eq" else (case.get("value_hex"), case.get("canonical_hex"))
         ma, mb = valunion.MEMBER_OF.get((ty, a)), valunion.MEMBER_OF.get((ty, b))
         r = case.get("reply") if law == "eq_iff_canon_eq" else case.get("cmp")
-        if ma is not None and mb is not None and ma != mb and r and r[0] == "ok" and r[1] == "0" and r[2] != "0" and r[3] == "1":
+        if ma is not None and mb is not None and ma != mb and r and r[0] == "ok" and r[1] == "0" and r[3] == "1":
             return "F412"
     # F63: a JSON string carrying a 64-bit integer is parsed in base 0 (0x.., leading 0 = octal), the other sources in base 10
     if law in ("same_verdict_all_sources", "hints_base") and head in ("i64", "u64") and case.get("route") == "json-string" \
